@@ -177,4 +177,14 @@ CLAIMED = {
             "conditions, returned holder/id/aud/dates/custom claims equal the signed ones.",
             "Bounds explicit; error kinds not compared.",
             "DESIGN.md §3 C03"),
+    "C07": ("TLA+ spec JwtClaims (ToClaims/FromClaims record algebra + consistency table) model-checked by TLC; every generated "
+            "credential, presentation and claims set executed on the real conversion code",
+            "model_checking",
+            "TLC checks the round-trip identity and the carried-once law of the abstract conversion on all 27 648 credentials and "
+            "4 608 presentations over their optional fields and evaluates 17 340 reverse-direction claim sets (each duplicated "
+            "member equal / different / absent, out-of-range numeric dates, nbf over iat); the harness builds the real "
+            "objects, inspects the serialised claims for single occurrence, converts back via the validators (accept-all "
+            "verifier) and requires equality, and for crafted claim sets accept <=> consistent, with the registered values used.",
+            "Conversion back is reached through the public validators; empty custom-claim maps identified with none.",
+            "DESIGN.md §3 C07"),
 }
